@@ -210,7 +210,7 @@ var modeOps = []op{
 		if err != nil {
 			return res(nil, err)
 		}
-		if i.Equal(o.inters) || len(i.Subjects()) != 4 || len(o.inters.Subjects()) != 2 {
+		if n := len(o.inters.Subjects()); i.Equal(o.inters) || len(i.Subjects()) != n+2 || n != 4 {
 			return errf("AddCert on a clone: clone has %d subjects, shared pool %d", len(i.Subjects()), len(o.inters.Subjects()))
 		}
 		return chainNames(chains)
